@@ -787,3 +787,34 @@ pub fn gen_multikey_family(r: &mut Rng) -> (Program, Edb, Vec<&'static str>) {
     }
     (Program { clauses: vec![Clause { head: 99, args, body }] }, vec![(0, e0), (3, e3)], vec!["multi-key-join"])
 }
+
+
+/// The answer relation is a join-free UNION of projections (several single-atom rules that drop
+/// columns), so that different stored tuples collapse to the same answer tuple.
+pub fn gen_union_proj_family(r: &mut Rng) -> (Program, Edb, Vec<&'static str>) {
+    use Lit::*;
+    let v = |i: u32| Term::Var(i);
+    let mut clauses = vec![];
+    let n = r.range(2, 3);
+    for _ in 0..n {
+        let c = match r.below(4) {
+            0 => Clause { head: 99, args: vec![HTerm::Var(0)], body: vec![Pos(0, vec![v(0), Term::Wild])] },
+            1 => Clause { head: 99, args: vec![HTerm::Var(0)], body: vec![Pos(1, vec![v(1), v(0)])] },
+            2 => Clause { head: 99, args: vec![HTerm::Var(0)], body: vec![Pos(3, vec![v(0), v(1), Term::Wild]), Cmp(CmpOp::Ge, v(1), Term::Int(1))] },
+            _ => Clause { head: 99, args: vec![HTerm::Var(0)], body: vec![Pos(2, vec![v(0)])] },
+        };
+        clauses.push(c);
+    }
+    let mut edb = vec![];
+    for (rel, ar) in [(0u32, 2usize), (1, 2), (2, 1), (3, 3)] {
+        let mut ts: Vec<Tuple> = vec![];
+        for _ in 0..r.range(6, 14) {
+            let t = Tuple::new((0..ar).map(|_| Value::Int64(r.range(0, 3))).collect());
+            if !ts.contains(&t) {
+                ts.push(t);
+            }
+        }
+        edb.push((rel, ts));
+    }
+    (Program { clauses }, edb, vec!["union-of-projections", "multi-clause-head"])
+}
